@@ -117,8 +117,21 @@ def validate_trace(trace, workdir, timeout=1500, heap="6g"):
 
 def judge(chk, prop, traces, workdir, kind, exe):
     """Validate traces (in parallel) and turn refusals of this property's rules into violations."""
-    with cf.ThreadPoolExecutor(max_workers=max(1, NCPU // 2)) as ex:
-        verdicts = list(ex.map(lambda t: validate_trace(t, workdir), traces))
+    # validate in batches; once this property has violations the remaining (possibly huge) traces are skipped
+    verdicts = []
+    done_traces = []
+    B = max(1, NCPU // 2)
+    with cf.ThreadPoolExecutor(max_workers=B) as ex:
+        for i in range(0, len(traces), B):
+            batch = traces[i:i + B]
+            vs = list(ex.map(lambda t: validate_trace(t, workdir), batch))
+            verdicts += vs
+            done_traces += batch
+            if any(r in RULES[prop] for v in vs for r, _ in v["bad"]):
+                if i + B < len(traces):
+                    chk.notes.append("stopped validating after the first refusals: %d of %d traces judged" % (len(done_traces), len(traces)))
+                break
+    traces = done_traces
     total = 0
     other = {}
     seen_sig = {}
@@ -221,9 +234,10 @@ def main(prop, tier):
         chunks = [pre + ".%04d.ndjson" % i for i in range(res["chunks"])]
         return c, res, chunks
 
-    explores = [(3, 2, 2, 1, 10**7), (4, 2, 3, 0, 10**7), (3, 3, 2, 0, 10**7)]
+    # state caps: a broken implementation may have an unbounded state graph; a truncated exploration is still judged
+    explores = [(3, 2, 2, 1, 120000), (4, 2, 3, 0, 120000), (3, 3, 2, 0, 120000)]
     if thorough:
-        explores += [(5, 2, 4, 0, 10**7), (4, 2, 3, 1, 10**7), (4, 3, 2, 0, 3 * 10**5), (6, 2, 3, 0, 10**6), (7, 2, 6, 0, 5 * 10**5)]
+        explores += [(5, 2, 4, 0, 2 * 10**6), (4, 2, 3, 1, 10**6), (4, 3, 2, 0, 3 * 10**5), (6, 2, 3, 0, 10**6), (7, 2, 6, 0, 5 * 10**5)]
 
     import apalache_obl
     with cf.ThreadPoolExecutor(max_workers=8) as ex:
@@ -291,7 +305,7 @@ def main(prop, tier):
         chk.cov.setdefault("impl_exploration", []).append({"graph": "cap=%d readers=%d maxwrite=%d toggle=%d" % c[:4], **res})
     if drift and not thorough:
         # drift-triggered deepening: look harder at the real code before declaring the property intact
-        extra = [(5, 2, 4, 0, 10**6), (4, 2, 3, 1, 10**6)]
+        extra = [(5, 2, 4, 0, 100000), (4, 2, 3, 1, 100000)]
         for c in extra:
             _, res, chunks = run_explore(c)
             traces += chunks
@@ -301,7 +315,7 @@ def main(prop, tier):
         run([exe, "random", str(sd + 7919), "3000", "150", t2], timeout=600, check=True)
         traces.append(t2)
     total, verdicts = judge(chk, prop, traces, bdir, "implementation-driven exploration / random programs", exe)
-    chk.set("traces_validated_against_impl", len(traces))
+    chk.set("traces_validated_against_impl", len(verdicts))
     chk.set("impl_states_explored", impl_states)
     chk.set("impl_transitions_judged_by_obs", impl_trans)
     chk.set("random_programs", rnd["programs"])
